@@ -523,6 +523,18 @@ func (e Expect) String() string { return [...]string{"must-succeed", "must-fail"
 // Rows the statement does not decide (zero length, zero bits, zero max, zero
 // weight, weight > length, bits > 64) are "either".
 func (i Inst) Ctor(numShares int) (Expect, string) {
+	// parameter rules first, so that the reason names the parameter when both are degenerate
+	switch i.Kind {
+	case Sum:
+		nb, _ := offsetEnc(i.Max)
+		if new(big.Int).Lsh(big.NewInt(1), nb).Cmp(F64.P) >= 0 {
+			return MustFail, "2^bits >= field modulus: max+offset is not representable"
+		}
+	case SumVec, Histogram, MultihotCountVec:
+		if i.Chunk == 0 {
+			return MustFail, "zero chunk length"
+		}
+	}
 	if numShares < 2 {
 		return MustFail, "fewer than two aggregators"
 	}
@@ -530,40 +542,22 @@ func (i Inst) Ctor(numShares int) (Expect, string) {
 		return MustFail, "more than 255 aggregators"
 	}
 	switch i.Kind {
-	case Count:
-		return MustSucceed, ""
 	case Sum:
-		nb, _ := offsetEnc(i.Max)
-		if new(big.Int).Lsh(big.NewInt(1), nb).Cmp(F64.P) >= 0 {
-			return MustFail, "2^bits >= field modulus: max+offset is not representable"
-		}
 		if i.Max == 0 {
 			return Either, "max = 0"
 		}
-		return MustSucceed, ""
 	case SumVec:
-		if i.Chunk == 0 {
-			return MustFail, "zero chunk length"
-		}
 		if i.Length == 0 || i.Bits == 0 || i.Bits > 64 {
 			return Either, "zero length / zero bits / bits > 64"
 		}
-		return MustSucceed, ""
 	case Histogram:
-		if i.Chunk == 0 {
-			return MustFail, "zero chunk length"
-		}
 		if i.Length == 0 {
 			return Either, "zero length"
 		}
-		return MustSucceed, ""
-	default:
-		if i.Chunk == 0 {
-			return MustFail, "zero chunk length"
-		}
+	case MultihotCountVec:
 		if i.Length == 0 || i.MaxWeight == 0 || i.MaxWeight > i.Length {
 			return Either, "zero length / zero weight / weight > length"
 		}
-		return MustSucceed, ""
 	}
+	return MustSucceed, ""
 }
